@@ -22,6 +22,7 @@ pub fn item_text(it: &Value) -> String {
         "word" => name.to_string(),
         "nv" => format!("{} = {}", name, lit_text(it["val"].as_str().unwrap())),
         "list" => format!("{}({})", name, items_text(&it["items"])),
+        "junk" => format!("{}(a b ; =>)", name),
         f => panic!("form {}", f),
     }
 }
